@@ -20,7 +20,7 @@ func init() {
 		Assumptions: []string{"reference interpreter / Kleene evaluator ref.go and the independent reader are the oracle (the repository checks the generator only against the engine)"},
 		NumCases: func(tier string) int {
 			if tier == "thorough" {
-				return 61 * 2 * 8 * 6 * 40
+				return 61 * 2 * 8 * 6 * 320
 			}
 			return 61 * 2 * 8 * 6 * 3
 		},
